@@ -296,7 +296,9 @@ def run_cfg(ctx, p, cfg):
         okr = all(deep_strip(a) == ("param", 1) or (deep_strip(a)[0] == "call" and deep_strip(a)[1] == REPLACE and len(deep_strip(a)) > 3 and deep_strip(a)[3] == rp.block) for a in alts)
         r.require(okr, "output-untouched-otherwise", fn=f, detail="returned value is the input or the result of that replace: %s" % show(ret, 4))
         # name looked up is the scanned name
-        r.require(any(x[0] == "call" and x[1] == "alloc::string::String::new" for x in walk(ev[0].arg(0))) if ev else False, "looks-up-the-scanned-name", fn=f, detail="env::var(&env_name)")
+        # (a String started empty and pushed to, or started from the first character the scan read)
+        r.require(any(x[0] == "call" and (x[1] == "alloc::string::String::new" or (x[1] == NEXT and any(y[0] == "call" and y[1] == "core::str::<impl str>::chars" for y in walk(x)))) for x in walk(ev[0].arg(0))) if ev else False,
+                  "looks-up-the-scanned-name", fn=f, detail="env::var(&env_name)")
 
     with ctx.rule("N7", "every terminated reference is looked up", cfg) as r:
         # N3 is the 'only if' direction.  The 'if' direction: once the name scan has ended on the terminator, every path to the next
